@@ -262,9 +262,15 @@ def rule_pairing(chk):
     # traceback list
     at = appends("tracebackMessages")
     okt = bool(at)
+    from .. import exprs as X
+
+    def is_tb_serializer_edge(t, lab):
+        """taking this branch means the message was written with the traceback serializer"""
+        e, lab2 = X.strip_not(t.exprs[0], lab)
+        op = X.compare_of(e, lambda x: isinstance(x, ast.Name) and x.id == sparam, lambda x: unparse(x) == "TRACEBACK_MESSAGE._serializer")
+        return (op is ast.Is and lab2 == "true") or (op is ast.IsNot and lab2 == "false")
     for n, c in at:
-        g = [unparse(t.exprs[0]) for t, lab in cfg.guards_of(n) if t.kind == "test" and lab == "true"]
-        okt = okt and any("TRACEBACK_MESSAGE._serializer" in x and sparam in x and " is " in x for x in g) \
+        okt = okt and any(t.kind == "test" and is_tb_serializer_edge(t, lab) for t, lab in cfg.guards_of(n)) \
             and len(c.args) == 1 and isinstance(c.args[0], ast.Name) and c.args[0].id == dparam
     chk.req(okt, "C16.pairing", "MemoryLogger.write:traceback-list-consistent", chk.where(w),
             good="traceback messages recorded iff written with the traceback serializer, same dict",
